@@ -293,6 +293,24 @@ func runProcessScript(c procCase) (fails []h.Failure, obs observations) {
 				stalledConns = append(stalledConns, conn)
 				stalled = true
 			}
+		case "abort":
+			// clients that connect and go away at once, or after a piece of a request head /
+			// bytes that are no request at all
+			for _, tok := range st.Tokens {
+				conn, err := net.DialTimeout("tcp", fmt.Sprintf("127.0.0.1:%d", port), 3*time.Second)
+				if err != nil {
+					obs.notObserved["aborting client connected"]++
+					continue
+				}
+				switch {
+				case strings.HasPrefix(tok, "aborthalf"):
+					fmt.Fprintf(conn, "GET /x?t=%s HTT", tok)
+				case strings.HasPrefix(tok, "abortjunk"):
+					conn.Write([]byte("\x16\x03\x01\x02\x00\x01\x00\x01\xfc\x03\x03 not http at all\r\n\r\n"))
+				}
+				conn.Close()
+			}
+			obs.faults++ // (a worker that gives up on such a connection may end: requests queued behind it are not claimed to be answered)
 		case "kill":
 			obs.faults++
 			kids := childrenOf(master.Process.Pid)
@@ -495,6 +513,24 @@ func TestProcessQueuedBehindHang(t *testing.T) {
 	}
 }
 
+// TestProcessAbortedConnections - clients that connect and leave without a request (at once,
+// in the middle of the head, after bytes that are no HTTP): whatever the workers do about
+// them, the pool stays within its bounds, the master lives, and requests made afterwards are
+// answered by one worker each
+func TestProcessAbortedConnections(t *testing.T) {
+	for i, c := range []procCase{
+		{Init: 1, Max: 1, Steps: []step{{Kind: "abort", Tokens: []string{"abort1", "aborthalf2", "abortjunk3"}}, {Kind: "wait", Ms: 1500}, {Kind: "requests", Tokens: []string{"fast4", "slow5"}}, {Kind: "wait", Ms: 1000}}},
+		{Init: 2, Max: 3, Steps: []step{{Kind: "requests", Tokens: []string{"slow1"}}, {Kind: "abort", Tokens: []string{"abort2", "abort3", "aborthalf4", "abortjunk5", "abort6", "abortjunk7"}}, {Kind: "wait", Ms: 1500}, {Kind: "requests", Tokens: []string{"fast8", "fast9", "slow10"}}, {Kind: "wait", Ms: 1000}}},
+	} {
+		fails, obs := runProcessScript(c)
+		for k, v := range obs.notObserved {
+			h.R.Count("not-observed: "+k, int64(v))
+		}
+		key, _ := json.Marshal(c)
+		h.R.Case(t, "process", string(key), c, []string{"aborted-connections", fmt.Sprint("scenario-", i)}, true, fails)
+	}
+}
+
 func TestProcessScripts(t *testing.T) {
 	rapid.Check(t, func(rt *rapid.T) {
 		max := rapid.IntRange(1, 4).Draw(rt, "max")
@@ -503,7 +539,11 @@ func TestProcessScripts(t *testing.T) {
 		tokN := 0
 		faults := 0
 		for i := 0; i < n; i++ {
-			switch rapid.IntRange(0, 5).Draw(rt, "kind") {
+			switch rapid.IntRange(0, 6).Draw(rt, "kind") {
+			case 6:
+				tokN++
+				c.Steps = append(c.Steps, step{Kind: "abort", Tokens: []string{fmt.Sprintf("%s%d", rapid.SampledFrom([]string{"abort", "aborthalf", "abortjunk"}).Draw(rt, "abortkind"), tokN)}})
+				faults++
 			case 0, 1, 2:
 				st := step{Kind: "requests"}
 				for j, k := 0, rapid.IntRange(1, 6).Draw(rt, "nreq"); j < k; j++ {
